@@ -10,7 +10,7 @@ import random
 
 import families
 import oracle
-from common import REPO, STRATEGIES, fail, import_biobalm, make_sd, motifs, net_info, run_step, state_or_none, vertex_set_bits
+from common import REPO, STRATEGIES, fail, import_biobalm, make_sd, motifs, net_info, run_step, same_motifs_one_maa, state_or_none, vertex_set_bits
 from oracle import skey
 
 BOUND = ("(union) disjoint unions of two networks with <= 4 variables each (hand-built parts: MAA core, latch, switch, toggle, sources, oscillator, D-inputs; seeded "
@@ -18,7 +18,11 @@ BOUND = ("(union) disjoint unions of two networks with <= 4 variables each (hand
          "of the parts; (inputs) networks with 1-3 source variables and <= 7 variables in total, every valuation: diagram of the network with the sources "
          "replaced by constants vs the part of the free-input bfs diagram below the node of that valuation (nodes, edges, motifs, attractor sets); "
          "under the other complete strategies (build, block, scc, attractor-seed, dfs) the attractors reported inside every input valuation are compared with the "
-         "brute-force attractors of that valuation and with the diagram of the network with the sources fixed, built by the same strategy; "
+         "brute-force attractors of that valuation and with the diagram of the network with the sources fixed, built by the same strategy; under build, block and dfs also "
+         "node spaces, expansion flags and edges (with motifs) of the fixed-input diagram vs the part of the free-input diagram reachable from the valuation node; "
+         "(conditioned) input-conditioned modules with IDENTICAL stable motifs (clean under one input value, motif-avoidant under the other; escape-term and multiplexed variants, "
+         "1-2 sources, with downstream / independent extra modules, seeded perturbations confirmed by brute force) and networks with <= 8 variables in which 1-3 further variables become "
+         "inputs once an input is fixed (6 forms x 7 accompanying modules, seeded mixes) - as (inputs) cases under build and block first, then the other strategies; "
          "(blocks) block-structured networks with <= 8 variables - a motif-avoidant module (MAA core / 2-variable XNOR module) regulating a downstream bistable "
          "module (8 module shapes x 2 polarities), the same module under different input valuations (motif-avoidant for one value of a source, clean for the other; "
          "1-2 sources), optionally with an independent extra module, plus seeded compositions - as (inputs) cases under every strategy and as (union) cases "
@@ -66,8 +70,27 @@ def shape_cases(seed, tier):
                 yield {"kind": "union", "a": bnet, "b": partners["osc"], "names": [name, "osc"], "strategy": strat}
 
 
+# strategies (besides bfs) under which the SHAPE of the fixed-input diagram is compared with the part below the valuation node.  expand_scc is not among them:
+# it fixes input combinations jointly only at the root, so variables that become inputs below a valuation node are expanded one by one there but jointly in the
+# fixed-input network (candidate finding /verif/findings/candidate_scc_emergent_inputs.py); attractor-seed expansion is greedy (no shape claim).
+SHAPE_STRATS = ["build", "block", "dfs"]
+
+
+def cond_cases(seed, tier):
+    """(conditioned): input-conditioned modules with identical stable motifs (clean under one input value, motif-avoidant under the other) and networks in
+    which further variables become inputs once an input is fixed - as (inputs) cases under build / expand_block first, then the other strategies."""
+    def has_src(b):
+        return any(v == e for v, e in families.parse_rules(b))
+
+    smc = ((n, b) for n, b in families.same_motif_cond_nets(seed, tier, accept=same_motifs_one_maa) if has_src(b))
+    for k, (name, bnet) in enumerate(families.interleave((smc, 1), (families.emergent_source_nets(seed, tier), 1))):
+        first = name in ("smc_first", "emergent_first")
+        for strat in (INPUT_STRATS if first else ["build", "block", ["scc", "aseeds", "dfs", "bfs"][k % 4]]):
+            yield {"kind": "inputs", "net": name, "bnet": bnet, "strategy": strat}
+
+
 def cases(seed, tier):
-    yield from families.interleave((shape_cases(seed, tier), 2), (general_cases(seed, tier), 4))
+    yield from families.interleave((cond_cases(seed, tier), 2), (shape_cases(seed, tier), 2), (general_cases(seed, tier), 4))
 
 
 def general_cases(seed, tier):
@@ -277,6 +300,8 @@ def check_inputs_strategy(case, info, net, srcs, strat):
         fx, rf = run_step(fx, STRATEGIES[strat])
         if isinstance(rf, dict) or rf is False:
             continue
+        if strat in SHAPE_STRATS:
+            out += compare_shapes(free, fx, net, val, f"strategy {strat}, valuation {val}")
         fnet = oracle.Net.from_bnet(fixed_text)
         sb = sorted(attractor_sets(fx, fnet))
         if strat == "scc" and sb != obs and sorted(set(sb)) == sorted(set(obs)) == ref:
@@ -284,6 +309,39 @@ def check_inputs_strategy(case, info, net, srcs, strat):
         if sb != obs:
             out.append(fail("input_subdiagram_attractors", "the diagram with the sources fixed has the same attractors as the free-input diagram inside that valuation",
                             f"strategy {strat}, valuation {val}", observed=len(sb), expected=len(obs)))
+    return out
+
+
+def sub_diagram(sd, top):
+    below, stack = {top}, [top]
+    while stack:
+        for c in sd.dag.successors(stack.pop()):
+            if c not in below:
+                below.add(c)
+                stack.append(c)
+    return below
+
+
+def compare_shapes(free, fx, net, val, where):
+    """Node spaces, expansion flags and edges (with their stable motifs) of the fixed-input diagram vs the part of the free-input diagram reachable from the valuation node."""
+    clause = "the diagram with the sources fixed is isomorphic to the part of the free-input diagram below the node for that valuation"
+    top = free.find_node(net.percolate(val))
+    if top is None:
+        return [fail("valuation_node_missing", "the free-input diagram has a node for every input valuation", where, expected=net.percolate(val))]
+    below = sub_diagram(free, top)
+    nodes_a = sorted(skey(free.node_data(i)["space"]) for i in below)
+    nodes_b = sorted(skey(fx.node_data(i)["space"]) for i in fx.node_ids())
+    if nodes_a != nodes_b:
+        return [fail("input_subdiagram_nodes", clause, where + f": {len(nodes_b)} nodes in the fixed-input diagram, {len(nodes_a)} below the valuation node", observed=nodes_b, expected=nodes_a)]
+    out = []
+    flags_a = sorted((skey(free.node_data(i)["space"]), bool(free.node_data(i)["expanded"])) for i in below)
+    flags_b = sorted((skey(fx.node_data(i)["space"]), bool(fx.node_data(i)["expanded"])) for i in fx.node_ids())
+    if flags_a != flags_b:
+        out.append(fail("input_subdiagram_expanded", clause + " (same nodes expanded)", where, observed=flags_b, expected=flags_a))
+    ea = sorted((skey(free.node_data(p)["space"]), skey(free.node_data(c)["space"]), tuple(sorted(skey(m) for m in motifs(free, p, c)))) for p, c in free.dag.edges if p in below)
+    eb = sorted((skey(fx.node_data(p)["space"]), skey(fx.node_data(c)["space"]), tuple(sorted(skey(m) for m in motifs(fx, p, c)))) for p, c in fx.dag.edges)
+    if ea != eb:
+        out.append(fail("input_subdiagram_edges", clause, where, observed=eb, expected=ea))
     return out
 
 
